@@ -108,6 +108,8 @@ def scope(tier, seed):
     return {'graphs': '%d (quick: the six 3-state structures and every other 1-2 state one, parity by '
             'seed)' % len(graphs()), 'namings': sorted(NAMINGS), 'label schemes': sorted(EXTRA_LABELS),
             'formulas per checker': 12,
+            'extremes': 'the empty structure Kripke() (all formulas, 4 F values); chains, reversed chains and '
+                        'rings of 1200 and 2500 states with CTL-shaped formulas through CTL and CTL*',
             'fresh-name collisions': 'CTL*: per formula the structure is labelled with exactly the fresh '
                                      'atom names a dry run generated (+ their (0) variants); atoms also '
                                      'renamed to format-hostile strings ({p}, %(q)s, {0}, p{, }%s)', 'F': ['None', '[set()]', '[{first state}]'],
@@ -115,9 +117,58 @@ def scope(tier, seed):
                           'call, discard a member, call', 'call, call, mutate first, compare second, call']}
 
 
+def run_extremes(acc):
+    """The empty structure (vacuously total) and long simple paths (recursion depth)."""
+    from ..refsem import ctl_sat
+    K0 = Kripke()
+    for logic in ('CTL', 'LTL', 'CTLS'):
+        for f in FORMS[logic]:
+            for F in (None, [], [set()], [set([0])]):
+                kw = {} if F is None else {'F': F}
+                r = call(lib.LANGS[logic].modelcheck, K0, lib.build(f, lib.LANGS[logic]), **kw)
+                acc.ev(1, 1)
+                acc.add('transitions')
+                if r[0] != 'ok' or not isinstance(r[1], set) or r[1]:
+                    acc.violation('exception' if r[0] != 'ok' else 'non-state-in-result',
+                                  {'k': {'n': 0, 'succ': [], 'lab': []}, 'naming': 'ints', 'labels': 'empty-structure',
+                                   'logic': logic, 'f': spaces.to_jsonable(f), 'f_str': spaces.fstr(f),
+                                   'F': repr(F)}, 'set()', r[1:] if r[0] != 'ok' else sorted(map(repr, r[1])))
+    for n in (1200, 2500):
+        names = list(range(n))
+        for shape in ('chain', 'reverse-chain', 'ring'):
+            if shape == 'chain':
+                R = [(i, i + 1) for i in range(n - 1)] + [(n - 1, n - 1)]
+            elif shape == 'reverse-chain':
+                R = [(i + 1, i) for i in range(n - 1)] + [(0, 0)]
+            else:
+                R = [(i, (i + 1) % n) for i in range(n)]
+            L = {n - 1: {'p'}, 0: {'q'}, n // 2: {'p', 'q'}}
+            k = spaces.K(n, [tuple(d for (s, d) in R if s == i) for i in range(n)] if n < 0 else
+                         [()] * n, [L.get(i, ()) for i in range(n)])
+            succ = [[] for _ in range(n)]
+            for (s, d) in R:
+                succ[s].append(d)
+            k = spaces.K(n, succ, [L.get(i, ()) for i in range(n)])
+            Kl = Kripke(S=names, R=R, L=L)
+            forms = [('E', ('F', P)), ('A', ('G', N(Q))), ('E', ('U', N(P), Q)), ('E', ('G', N(P))),
+                     ('A', ('F', P)), ('A', ('R', P, N(Q))), ('A', ('X', ('E', ('F', Q))))]
+            for f in forms:
+                ref = ctl_sat(k, f)
+                for logic in ('CTL', 'CTLS'):
+                    r = call(lib.LANGS[logic].modelcheck, Kl, lib.build(f, lib.LANGS[logic]))
+                    acc.ev(1, 1)
+                    acc.add('transitions')
+                    case = {'k': {'n': n, 'shape': shape}, 'naming': 'ints', 'labels': 'long-' + shape,
+                            'logic': logic, 'f': spaces.to_jsonable(f), 'f_str': spaces.fstr(f), 'F': 0}
+                    if r[0] != 'ok':
+                        acc.violation('exception', case, 'a set of %d states' % len(ref), r[1:])
+                    elif not isinstance(r[1], set) or set(r[1]) != set(ref):
+                        acc.violation('wrong-answer', case, len(ref), len(r[1]))
+
+
 def plan(tier, seed):
     n = len(graphs())
-    sh = []
+    sh = [['extremes']]
     for gi in range(n):
         if tier == 'quick' and gi % 2 != seed % 2 and gi < n - 6:
             continue
@@ -289,6 +340,10 @@ def run_fresh(k, naming, acc):
 
 
 def run_shard(shard, tier, seed, acc):
+    if shard[0] == 'extremes':
+        run_extremes(acc)
+        acc.sample({'structures': ['Kripke() with no state', 'chains / rings of 1200 and 2500 states']})
+        return
     k = graphs()[shard[1]]
     naming = shard[2]
     if naming != 'formula-like':
@@ -307,8 +362,11 @@ def run_shard(shard, tier, seed, acc):
 def replay(art):
     from ..runner import Acc
     c = art['case']
-    k = spaces.K.from_json(c['k'])
     acc = Acc()
+    if c['labels'] == 'empty-structure' or str(c['labels']).startswith('long-'):
+        run_extremes(acc)
+        return {'violates': acc.d['nviol'] > 0, 'detail': acc.d['violations'][:1]}
+    k = spaces.K.from_json(c['k'])
     if c['labels'] == 'fresh-exact':
         run_fresh(k, c['naming'], acc)
     else:
